@@ -352,7 +352,10 @@ pub fn c14(cx: &Ctx) -> Report {
             let all = domain::int_domain(t, d);
             let real: BTreeSet<Val> = all.iter().filter(|v| s.construct(v).is_ok()).cloned().collect();
             if real != valid {
-                r.machinery_errors.push(format!("C14: REF valid set differs from constructor's on {} (C01 should have fired)", decl_text(d)));
+                // the property speaks of "every value obtainable through the constructor": where the real constructor
+                // disagrees with REF (a C01 violation, reported there) its own set is the oracle here
+                r.hist("valid-set-taken-from-the-real-constructor (differs from REF: see C01)", 1);
+                valid = real;
             }
         }
         // how many bytes does the generator consume?
